@@ -96,6 +96,16 @@ def handler : Handler := fun op inp out =>
         (m, check (corpus ++ validTableClauses t i.n i.rels i.subs ++
           [("rows-equal-index", exactIndex t.size i.subs i.d i.imgs),
            ("nr-gens-and-get-beyond-last-row-is-none", probesOk i.n g p1 p2)]))
+    | "ct_nc" =>
+      -- presentations without a stored permutation representation: validity clauses only
+      let m := outcomeStr id (modelCt i)
+      match run (do let t ← P.intss; let b ← P.intss; let g ← P.nat; let p1 ← P.ints; let p2 ← P.ints
+                    pure (t, b, g, p1, p2)) out with
+      | none => (m, fail "no-table-returned")
+      | some (tl, _, g, p1, p2) =>
+        let t := tabOfLists tl
+        (m, check (validTableClauses t i.n i.rels i.subs ++
+          [("nr-gens-and-get-beyond-last-row-is-none", probesOk i.n g p1 p2)]))
     | "reps" =>
       match run (do let t ← P.intss; let r ← parseReps; pure (t, r)) out with
       | none =>
